@@ -305,6 +305,24 @@ func (p c18) battery(env *Env) (*Case, []*Out) {
 			add(fmt.Sprintf("several outputs, one unformattable, variant %d", variant), w4.Spec("", nil, a4), c18Run{Kind: "valid", Ref: -1, Feature: "several-outputs-one-unformattable"})
 		}
 	}
+	// a $ref defect at a root property whose DERIVED type name (root type + property name: T0FJson + t0p1 -> T0FJsonT0P1) is
+	// already held by an empty definition: the name being taken must not answer the reference (found on the unchanged
+	// tree from a sub-agent's side note: the comparison behind "same name, same type?" ignored $ref, the missing
+	// definition was never looked up, exit 0 - F-C18-12)
+	{
+		nf := *t0
+		nf.Doc = withDef(cloneObj(t0.Doc), "T0FJsonT0P1", Obj{})
+		w5 := *w
+		w5.Files = []*SFile{&nf, w.Files[1]}
+		for _, st := range collectSites(nf.Doc) {
+			if st.key != "t0p1" || len(st.path) != 1 {
+				continue
+			}
+			for _, k := range []string{"ref-missing-def", "ref-missing-file", "ref-nested-bad-def"} {
+				buildDefect(&w5, args, &nf, st, k, "none", 0, add, "derived-name-held-by-empty-definition")
+			}
+		}
+	}
 	// every chain shape at depth 16 (a linear generator needs a few thousand ticks for it)
 	for _, shape := range chainShapes {
 		if shape == "anyof-two" {
